@@ -173,6 +173,17 @@ def _cval(fn, x):
     return None
 
 
+def norm_walk(fn, atom, pol):
+    """the fact in the loop-position spelling (cfg.Fn.render_walk)"""
+    if isinstance(atom, dict) and atom.get('k') == 'Inlined':
+        return norm(fn, atom, pol, resolve=True)
+    old, fn._walk = getattr(fn, '_walk', False), True
+    try:
+        return norm(fn, atom, pol, resolve=True)
+    finally:
+        fn._walk = old
+
+
 def norm(fn, atom, pol, resolve=False):
     if isinstance(atom, dict) and atom.get('k') == 'Inlined':
         g, env = atom['fn'], (atom['envr'] if resolve else atom['env'])
